@@ -299,3 +299,14 @@ func VerifC08TrackPrefetch(c *Cache) {
 		c.prefetchQueryer = &verifC08Tracker{inner: c.prefetchQueryer}
 	}
 }
+
+// VerifC08EntryBound runs the real boundRequestToEntryLifetime: a cache HIT folds the
+// entry's lifetime into the request tree's ResponseMeta (already holding `have`), so
+// whatever is derived from the hit inherits it. Returns the meta's cut afterwards.
+func VerifC08EntryBound(have time.Time, stored time.Time, ttl time.Duration, cut time.Time, cutKey uint64) (time.Time, uint64) {
+	var m middleware.ResponseMeta
+	m.BoundCutFor(have, 99)
+	ctx := middleware.WithResponseMeta(context.Background(), &m)
+	boundRequestToEntryLifetime(ctx, &CacheEntry{stored: stored, ttl: ttl, cutUntil: cut, cutKey: cutKey})
+	return m.Cut()
+}
